@@ -99,3 +99,31 @@ void h_names(void) {
   }
   VF_WITNESS();
 }
+
+/* ---- NameProvider::name(i) on a file whose line structure is enumerated (positions of the newlines concrete), all other bytes symbolic
+ * (so names may contain or end in '\r'); the NameProvider state is constructed directly as ReadNames leaves it ---- */
+#ifndef ELEN
+#define ELEN 5
+#endif
+#ifndef EMASK
+#define EMASK 0x14
+#endif
+#ifndef EIDX
+#define EIDX 0
+#endif
+void h_name_lookup_enum(void) {
+  char *b = vf_malloc(ELEN); u32 ls[ELEN + 1], nl = 0, st = 0; u32 ends[ELEN + 1];
+  for (u32 i = 0; i < ELEN; i++) { if ((EMASK >> i) & 1) { b[i] = '\n'; ls[nl] = st; ends[nl] = i; nl++; st = i + 1; } else { u8 c = vf_nd8(); VF_REQUIRE(c != '\n' && c != 0); b[i] = (char)c; } }
+  VF_REQUIRE(((EMASK >> (ELEN - 1)) & 1) && EIDX < nl);          /* file ends with a newline; the requested line exists */
+  u32 offs[ELEN + 2]; for (u32 i = 0; i < ELEN + 2; i++) offs[i] = i < nl ? ls[i] : ELEN;       /* names_: start of every line, then the end marker */
+  vf_names_buf = b; vf_names_len = ELEN;
+  char *np = w_np_make_img(b, (char *)offs, ELEN + 2); VF_REQUIRE(np != 0);
+  char out[24]; u64 len = 0;
+  u32 rc = w_np_name(np, EIDX, out, sizeof out, (char *)&len); VF_OBS(rc); VF_OBS(len);
+  VF_ASSERT(rc == 0, "name() does not throw");
+  /* expected: the line without its \n, and without one \r directly before the \n (Windows line end) */
+  u32 s0 = ls[EIDX], e0 = ends[EIDX]; u32 el = e0 - s0; if (el > 0 && b[e0 - 1] == '\r') el--;
+  VF_ASSERT(len == el, "name i is line i without its line end (\\n or \\r\\n), nothing more removed");
+  for (u32 k = 0; k < ELEN; k++) { if (k >= len || k >= el) break; VF_ASSERT(out[k] == b[s0 + k], "name i is the text of line i"); }
+  VF_WITNESS();
+}
